@@ -36,7 +36,55 @@ class Origins:
                             l = strip(l["c"][0])
                         if l is not None and l["k"] == "MemberExpr" and l.get("rec"):
                             self._fs.setdefault((l["rec"], l["n"]), []).append((g, x))
+                    elif x["k"] == "VarDecl" and x.get("c") and x["c"][0] is not None and x["c"][0]["k"] == "InitListExpr":
+                        # aggregate initialiser of a (static) table of records: row i, column j initialises field j
+                        self._init_rows(g, x)
+            # file-scope tables of records with constant initialisers
+            import re as _re
+            for u in self.P.units.values():
+                for v in u.vars:
+                    init = v.get("init")
+                    m = _re.search(r"struct (\w+)", v.get("type") or "")
+                    if not m or not isinstance(init, list):
+                        continue
+                    fields = self._record_fields(m.group(1))
+                    if not fields:
+                        continue
+                    rows = init if (init and all(isinstance(r, list) for r in init)) else [init]
+                    g0 = next(iter(u.funcs.values()), None)
+                    for row in rows:
+                        for j, cell in enumerate(row):
+                            if j < len(fields) and isinstance(cell, int) and g0 is not None:
+                                self._fs.setdefault((m.group(1), fields[j]), []).append(
+                                    (g0, {"k": "BinaryOperator", "op": "=", "c": [None, {"k": "IntegerLiteral", "v": cell, "c": []}]}))
         return self._fs.get((rec, field), [])
+
+    def _record_fields(self, tname):
+        if not hasattr(self, "_recs"):
+            self._recs = {}
+            for u in self.P.units.values():
+                for r in u.records:
+                    self._recs.setdefault(r["name"], [fl[0] for fl in r["fields"]])
+        return self._recs.get(tname)
+
+    def _init_rows(self, g, vd):
+        import re as _re
+        t = vd.get("t") or ""
+        m = _re.search(r"struct (\w+)", t)
+        rec = m.group(1) if m else None
+        fields = self._record_fields(rec) if rec else None
+        if not fields:
+            return
+        init = vd["c"][0]
+        rows = [r for r in (init.get("c") or ()) if r is not None]
+        if rows and all(r["k"] != "InitListExpr" for r in rows):
+            rows = [init]          # a single record
+        for row in rows:
+            if row["k"] != "InitListExpr":
+                continue
+            for j, cell in enumerate(row.get("c") or ()):
+                if cell is not None and j < len(fields):
+                    self._fs.setdefault((rec, fields[j]), []).append((g, {"k": "BinaryOperator", "op": "=", "c": [None, cell]}))
 
     def of(self, n, f, depth=0, seen=None):
         """Set of ints that may flow into expression n of function f.  Unknown sources are appended
